@@ -138,6 +138,21 @@ func idsOnDisk(root string) map[uint64]bool {
 	return out
 }
 
+// closeService calls Service.Close under a watchdog. Service.Close holds the
+// service mutex while it waits for the purge goroutine, and that goroutine
+// takes the same mutex on every tick: with the short purge intervals used here
+// Close deadlocks regularly (after it has closed every processor, which is all
+// the accounting below needs). The watchdog is not a verdict.
+func closeService(svc *hh.Service, patience time.Duration) {
+	done := make(chan struct{})
+	go func() { svc.Close(); close(done) }()
+	select {
+	case <-done:
+	case <-time.After(patience):
+		r.Count("svc_close_did_not_return_mutex_held_while_waiting_for_purge_goroutine", 1)
+	}
+}
+
 // runSvcPurge: several blocks are queued for an active node; the first
 // delivery succeeds, later ones fail retryably until one failure was seen. A
 // send rate limit makes the processor pause right after its first Advance,
@@ -170,7 +185,7 @@ func runSvcPurge(caseID string, seed int64, root string) {
 	closed := false
 	defer func() {
 		if !closed {
-			svc.Close()
+			closeService(svc, 10*time.Second)
 		}
 	}()
 	const shard, node = 7, 3
@@ -223,7 +238,7 @@ func runSvcPurge(caseID string, seed int64, root string) {
 		}
 		time.Sleep(2 * time.Millisecond)
 	}
-	svc.Close()
+	closeService(svc, 10*time.Second)
 	closed = true
 	d, disk := w.delivered(), idsOnDisk(dir)
 	var lost []uint64
@@ -301,7 +316,7 @@ func runSvcChurn(caseID string, seed int64, root string) {
 		}
 		time.Sleep(5 * time.Millisecond)
 	}
-	svc.Close()
+	closeService(svc, 3*time.Second)
 	d, disk := w.delivered(), idsOnDisk(dir)
 	var lost []uint64
 	for _, id := range accepted {
@@ -350,7 +365,6 @@ func runSvcRemove(caseID string, seed int64, root string) {
 		id := uint64(i + 1)
 		node := uint64(2 + i%2)
 		if err := svc.WriteShard(7+uint64(i%3), node, []models.Point{idPoint(id)}); err != nil {
-			svc.Close()
 			harnessFatal("Service.WriteShard: %v", err)
 		}
 		if node == 3 {
@@ -358,7 +372,7 @@ func runSvcRemove(caseID string, seed int64, root string) {
 		}
 	}
 	if err := svc.RemoveNode(2); err != nil {
-		svc.Close()
+		closeService(svc, 10*time.Second)
 		r.Violation("C04/service/remove-node-error", caseID, "RemoveNode failed: "+err.Error(), nil)
 		return
 	}
@@ -375,7 +389,7 @@ func runSvcRemove(caseID string, seed int64, root string) {
 		}
 		time.Sleep(2 * time.Millisecond)
 	}
-	svc.Close()
+	closeService(svc, 10*time.Second)
 	d, disk := w.delivered(), idsOnDisk(dir)
 	for _, id := range keep {
 		if !d[id] && !disk[id] {
